@@ -1,5 +1,5 @@
 (* Property C16 - damaged spectrum files are rejected, never read as a different spectrum. *)
-From Sfs Require Import Index Npy Text NpyP TextP.
+From Sfs Require Import Index Npy Text NpyP TextP NpySpellP.
 Close Scope string_scope. Open Scope N_scope.
 
 (* every strict prefix of a written npy file is rejected *)
